@@ -572,7 +572,6 @@ func TestC08(t *testing.T) {
 	run.Assume("heights use distinct squares (distinct data hashes), so per-height histories are independent")
 }
 
-
 // c08directed forces the window "a removal is waiting for a reader of the cached accessor" (marker
 // cache.accessor.close.waiting) and lets other operations come and go inside it; the same oracles
 // apply: every read correct, everything returns, final content = some sequential order, no fd left.
@@ -732,7 +731,6 @@ func c08directed(ctx context.Context, run *vkit.Run, r *vkit.RNG, base string, p
 		_ = os.RemoveAll(dir)
 	}
 }
-
 
 // c08forcedClose exercises the one legitimate way a held accessor is invalidated: a reader holds a
 // cached accessor and then blocks behind the stripe lock of a removal that itself waits for that very
